@@ -205,6 +205,10 @@ json_t *json_object_get(const json_t *object, const char *key)
 	return (json_t *)vj_any_shallow();	/* borrowed; arbitrary type */
 }
 
+#ifdef VJ_ARRAY_STATIC_ELEM
+char nondet_char(void);
+vj_t g_vj_elem; char g_vj_elem_str[12];
+#endif
 size_t json_array_size(const json_t *array)
 {
 	VJ_LIVE(array);
@@ -220,7 +224,24 @@ json_t *json_array_get(const json_t *array, size_t index)
 	const vj_t *a = (const vj_t *)array;
 	if (a == NULL || a->type != JSON_ARRAY || index >= a->asize)
 		return NULL;
+#ifdef VJ_ARRAY_STATIC_ELEM
+	/* the element is handed out in ONE static node (re-filled with arbitrary content on every
+	 * call): cbmc's loop-contract instrumentation does not allow allocation inside a loop, and
+	 * libjwt only looks at the element it was just given (json_array_foreach) */
+	{
+		json_type t = (json_type)nondet_int();
+		__CPROVER_assume(t >= JSON_OBJECT && t <= JSON_NULL);
+		g_vj_elem.type = t; g_vj_elem.refcount = 1; g_vj_elem.ival = nondet_longlong(); g_vj_elem.tracked = NULL;
+		g_vj_elem.asize = 0;
+		g_vj_elem_str[0] = nondet_char(); g_vj_elem_str[1] = nondet_char(); g_vj_elem_str[2] = nondet_char(); g_vj_elem_str[3] = nondet_char();
+		g_vj_elem_str[4] = nondet_char(); g_vj_elem_str[5] = nondet_char(); g_vj_elem_str[6] = nondet_char(); g_vj_elem_str[7] = nondet_char();
+		g_vj_elem_str[8] = nondet_char(); g_vj_elem_str[9] = nondet_char(); g_vj_elem_str[10] = nondet_char(); g_vj_elem_str[11] = 0;
+		g_vj_elem.sval = (t == JSON_STRING) ? g_vj_elem_str : NULL;
+		return (json_t *)&g_vj_elem;
+	}
+#else
 	return (json_t *)vj_any();	/* borrowed; arbitrary type */
+#endif
 }
 
 /* ---- mutators ---- */
@@ -338,6 +359,13 @@ static vj_t *vj_copy_shallow(const vj_t *n)
 	return c;
 }
 
+/* a copy fails only when the allocator does (units that follow allocation failures, C17) */
+#ifdef VERIF_ALLOC_RECORD_FAIL
+extern int g_lib_fail;
+#define VJ_RECORD_ALLOC_FAIL (g_lib_fail = 1)
+#else
+#define VJ_RECORD_ALLOC_FAIL ((void)0)
+#endif
 json_t *json_deep_copy(const json_t *value)
 {
 	VJ_LIVE(value);
@@ -345,12 +373,15 @@ json_t *json_deep_copy(const json_t *value)
 	if (n == NULL)
 		return NULL;
 	vj_t *c = vj_copy_shallow(n);
-	if (c == NULL)
+	if (c == NULL) {
+		VJ_RECORD_ALLOC_FAIL;
 		return NULL;
+	}
 	if (n->type == JSON_OBJECT && n->tracked != NULL) {
 		c->tracked = vj_copy_shallow(n->tracked);
 		if (c->tracked == NULL) {
 			free(c);
+			VJ_RECORD_ALLOC_FAIL;
 			return NULL;
 		}
 	}
